@@ -145,6 +145,24 @@ func doSearch(expr string, docText string, unordered bool) outcome {
 	var err error
 	p, _ := safely(func() { res, err = jmespath.Search(expr, doc) })
 	o.base = searchBase(res, err, p)
+	// An expression that observes the unspecified iteration order of object members (through `*`,
+	// keys(), values()) legitimately answers differently from run to run; the property is stated
+	// "up to that order".  The generators avoid such expressions, this is the safety net: if repeated
+	// one-shot runs of the implementation disagree among themselves, the case is not comparable.
+	if !p && !unordered && mayObserveOrder(expr) {
+		for i := 0; i < 5; i++ {
+			var r2 interface{}
+			var e2 error
+			p2, _ := safely(func() { r2, e2 = jmespath.Search(expr, doc) })
+			if searchBase(r2, e2, p2) != o.base {
+				o.base = "unstable"
+				if jmespath.VerifCanon(doc) != before {
+					o.flags = append(o.flags, "docmut")
+				}
+				return o
+			}
+		}
+	}
 	norm := func(s string) string {
 		if unordered {
 			return sortTopLevel(s)
@@ -195,6 +213,10 @@ func doSearch(expr string, docText string, unordered bool) outcome {
 	return o
 }
 
+
+func mayObserveOrder(expr string) bool {
+	return strings.Contains(expr, "*") || strings.Contains(expr, "keys") || strings.Contains(expr, "values")
+}
 
 func doJSONDecode(text string) outcome {
 	var v interface{}
